@@ -29,6 +29,7 @@ def load_variants():
                 v.setdefault('kind', 'fires')
                 out.append(v)
     out.extend(seed_variants())
+    out.extend(refactoring_variants())
     ids = [v['id'] for v in out]
     dup = {i for i in ids if ids.count(i) > 1}
     if dup:
@@ -54,6 +55,29 @@ def seed_variants():
         props = [m['property']] if m.get('own_property_now', m.get('detected_by_own_property')) else list(m.get('detected_by_now', m.get('detected_by', [])))[:1]
         for p in props:
             out.append(dict(id=f'seed-{sid}-{p}', prop=p, kind='fires', expect=p, patch=pp))
+    return out
+
+
+def refactoring_variants():
+    """behaviour-preserving refactorings written by independent sub-agents (selftest/refactorings/<id>/patch.diff, notes.md
+    starting with `# <property> - title`): the property's check must stay silent on each of them"""
+    import re
+    out = []
+    rd = os.path.join(HERE, 'refactorings')
+    if not os.path.isdir(rd):
+        return out
+    for rid in sorted(os.listdir(rd)):
+        pp, np_ = os.path.join(rd, rid, 'patch.diff'), os.path.join(rd, rid, 'notes.md')
+        if not os.path.exists(pp):
+            continue
+        props = []
+        if os.path.exists(np_):
+            props = re.findall(r'C\d\d', open(np_).readline())
+        extra = os.path.join(rd, rid, 'props.txt')
+        if os.path.exists(extra):
+            props += open(extra).read().split()
+        for p in sorted(set(props)):
+            out.append(dict(id=f'ref-{rid}-{p}', prop=p, kind='silent', patch=pp))
     return out
 
 
